@@ -1069,14 +1069,22 @@ func (r resolverQuery) esmPackageImportsExportsResolve(
 	return "", pjStatusNull, pjDebug{token: matchObj.firstToken}
 }
 
-// If path split on "/" or "\" contains any ".", ".." or "node_modules"
+// If path split on "/" or "\\" contains any ".", ".." or "node_modules"
 // segments after the first segment, throw an Invalid Package Target error.
+// Node compares these segments case-insensitively and also rejects their
+// percent-encoded variants (e.g. "%2e%2E" and "Node_Modules").
 func findInvalidSegment(path string) string {
 	slash := strings.IndexAny(path, "/\\")
 	if slash == -1 {
 		return ""
 	}
-	path = path[slash+1:]
+	return findInvalidSegmentInSubpath(path[slash+1:])
+}
+
+// This is like "findInvalidSegment" but it also checks the first segment. It's
+// used for the part of the import path that was matched by a "*" (or that
+// follows a key ending in "/"), where there is no leading "." segment to skip.
+func findInvalidSegmentInSubpath(path string) string {
 	for path != "" {
 		slash := strings.IndexAny(path, "/\\")
 		segment := path
@@ -1086,11 +1094,20 @@ func findInvalidSegment(path string) string {
 		} else {
 			path = ""
 		}
-		if segment == "." || segment == ".." || segment == "node_modules" {
+		if isInvalidSegment(segment) {
 			return segment
 		}
 	}
 	return ""
+}
+
+func isInvalidSegment(segment string) bool {
+	if strings.IndexByte(segment, '%') >= 0 {
+		if decoded, err := url.PathUnescape(segment); err == nil {
+			segment = decoded
+		}
+	}
+	return segment == "." || segment == ".." || strings.EqualFold(segment, "node_modules")
 }
 
 func (r resolverQuery) esmPackageTargetResolve(
@@ -1163,7 +1180,7 @@ func (r resolverQuery) esmPackageTargetResolve(
 
 		// If subpath split on "/" or "\" contains any ".", ".." or "node_modules"
 		// segments, throw an Invalid Module Specifier error.
-		if invalidSegment := findInvalidSegment(subpath); invalidSegment != "" {
+		if invalidSegment := findInvalidSegmentInSubpath(subpath); invalidSegment != "" {
 			if r.debugLogs != nil {
 				r.debugLogs.addNote(fmt.Sprintf("The path %q is invalid because it contains invalid segment %q", subpath, invalidSegment))
 			}
